@@ -120,28 +120,92 @@ def handler_closure(prog, body, op):
     return None
 
 
+def _desc_of(W, op, descs, depth=0):
+    """descriptor of an operand inside family member W, given descriptors of W's parameters 2..n"""
+    if depth > 4:
+        return ('?',)
+    v = _const_val(W, op)
+    if v is not None:
+        return ('const', v)
+    o = single_origin(trace_operand(W, op, through_calls=THROUGH | {'std::string::ToString::to_string'}))
+    if o is None:
+        return ('?',)
+    if o.kind == 'param':
+        if o.data == 1:
+            return ('self',)
+        if not o.proj and o.data - 2 < len(descs):
+            return descs[o.data - 2]
+        return ('?',)
+    if o.kind == 'agg' and o.data[2]['agg'] in ('adt', 'tuple') and not o.proj:
+        return ('tuple', [_desc_of(W, x, descs, depth + 1) for x in o.data[2]['ops']])
+    return ('?',)
+
+
+def descend(prog, rm, W, descs, depth=0):
+    """follow a registration through the writer family down to the HashMap::insert:
+    (key descriptor, value descriptor)"""
+    if depth > 5:
+        return None
+    if W.id in rm.leaf:
+        c = rm.leaf[W.id][0]
+        if len(c.args) < 3:
+            return None
+        return _desc_of(W, c.args[1], descs), _desc_of(W, c.args[2], descs)
+    c = rm.forward_call.get(W.id)
+    if c is None:
+        return None
+    inner = [_desc_of(W, a, descs) for a in c.args[1:]]
+    return descend(prog, rm, prog.by_id[c.ruid], inner, depth + 1)
+
+
 def builtin_rows(prog, rm):
-    """rows registered by the built-in fillers: dicts {kind, writer, name, args: [...], closure}"""
+    """rows registered by the built-in fillers: dicts {writer, name, args: [...], closure}; each
+    registration is followed through wrapper / generic helpers down to the map insert"""
     rows = []
     problems = []
     for fid in rm.fillers:
         fb = prog.by_id[fid]
         for c in fb.live_calls:
-            if c.ruid not in rm.writers:
+            if c.ruid not in rm.family:
                 continue
             w = prog.by_id[c.ruid]
-            av = [arg_values(fb, a) for a in c.args[1:-1]]
-            clo = handler_closure(prog, fb, c.args[-1])
-            if any(a is None for a in av):
+            descs = []
+            for a in c.args[1:]:
+                av = arg_values(fb, a)
+                if av is not None:
+                    descs.append(av)
+                    continue
+                clo = handler_closure(prog, fb, a)
+                descs.append(('handler', clo) if clo else ('?',))
+            res = descend(prog, rm, w, descs)
+            if res is None:
+                problems.append((fb, c, 'cannot follow the registration at %s down to the map insert' % c.where()))
+                continue
+            key, val = res
+            fields = val[1] if val[0] == 'tuple' else [val]
+            flat = [key] + fields
+            if any(f[0] == '?' for f in flat):
                 problems.append((fb, c, 'cannot evaluate the registration arguments at %s' % c.where()))
                 continue
             n = None
-            for a in av:
-                if a[0] == 'elem':
-                    n = len(a[3]) if n is None else n
+            for f in flat:
+                if f[0] == 'elem':
+                    n = len(f[3]) if n is None else n
+            clo = None
+            for f in fields:
+                if f[0] == 'handler':
+                    clo = f[1]
+            def val_of(f, k):
+                if f[0] == 'const':
+                    return f[1]
+                if f[0] == 'elem':
+                    return f[3][k]
+                return None
+            leafw = w
             for k in range(n or 1):
-                vals = [a[1] if a[0] == 'const' else a[3][k] for a in av]
-                rows.append({'writer': w.name, 'filler': fb.name, 'name': vals[0], 'args': vals[1:], 'closure': clo, 'where': c.where(), 'arity': len(c.args)})
+                rows.append({'writer': w.name, 'filler': fb.name, 'name': val_of(key, k),
+                             'args': [val_of(f, k) for f in fields if f[0] != 'handler'],
+                             'closure': clo, 'where': c.where(), 'arity': len(c.args)})
     return rows, problems
 
 
